@@ -136,6 +136,10 @@ Judge(e) ==
   /\ Chk(e.ev = "worker.sync.taken" => e.h > c.lastSync, "c14_conf_syncs_taken_out_of_order")
   /\ Chk(e.ev = "worker.election.taken" =>
            (P(e) \in ToSet(c.elecHist) \/ (c.m.phase = "election" /\ c.m.arg = P(e) /\ c.m.dec.res = "done")), "c15_conf_worker_took_an_election_the_slot_never_held")
+  \* C19: a trigger that reaches the worker is the newest one the main loop handed over since the worker was last at the top of
+  \* its loop - an older pair still waiting in the slot is superseded and must be gone (the same condition, as C19 words it)
+  /\ Chk(e.ev = "worker.election.taken" =>
+           (P(e) \in ToSet(c.elecHist) \/ (c.m.phase = "election" /\ c.m.arg = P(e) /\ c.m.dec.res = "done")), "c19_conf_trigger_taken_is_not_the_newest_handed_over")
   \* ---- worker iterations
   \* a sync below the current height and an election for another position have no effect at all
   /\ Chk((e.ev \in {"ctx.for", "spi.enter", "timer.armed", "cb.round", "cb.commit", "send"} /\ (e.ev = "ctx.for" => e.g = "worker")
